@@ -641,7 +641,7 @@ impl Transaction {
                 }
                 slip.amount
             })
-            .sum::<Currency>();
+            .fold(0, |total: Currency, amount| total.saturating_add(amount));
 
         let nolan_out = self
             .to
@@ -660,7 +660,7 @@ impl Transaction {
                 }
                 slip.amount
             })
-            .sum::<Currency>();
+            .fold(0, |total: Currency, amount| total.saturating_add(amount));
 
         self.total_in = nolan_in;
         self.total_out = nolan_out;
